@@ -14,7 +14,7 @@ RULE = ('one case = one scripted peer audited under 7 option sets (colour, -n, -
         '(refused, silent, closed after banner, garbage, truncated KEXINIT, wrong first packet, bad block size), and policy audits (-P) of passing and failing peers.  Oracle: status == 3/2/0 by the '
         'worst finding level visible in the report (algorithm notes by tag, general/security lines by colour); broken handshakes: status not in {0,2,3} and no algorithm lines/lists; policy: status 0 <=> passed, 3 <=> failed.  '
         'A case is non-trivial when at least one option set produced a report/verdict that was compared with the status; distinct = distinct peer specifications')
-REQUIRED = {'builtin_policy_runs': 10, 'outdated_builtin_policy_runs': 4, 'status_checks': 200, 'expect3': 10, 'expect2': 5, 'expect0': 3, 'broken_handshakes': 10, 'policy_runs': 10}
+REQUIRED = {'broken_after_rated_banner': 9, 'builtin_policy_runs': 10, 'outdated_builtin_policy_runs': 4, 'status_checks': 200, 'expect3': 10, 'expect2': 5, 'expect0': 3, 'broken_handshakes': 10, 'policy_runs': 10}
 ASSUMPTIONS = ['findings are algorithm notes plus failure/warning coloured lines of the general and security sections; (nfo), (rec) and (fin) lines are presentation, not findings',
                'levels of untagged (gen)/(sec) lines are only observable in colour renderings; the expected status of all option sets of a peer is derived from its colour rendering']
 MANIFEST = {
@@ -25,6 +25,9 @@ MANIFEST = {
 OPTSETS = [('color', []), ('plain', ['-n']), ('batch', ['-n', '-b']), ('verbose', ['-n', '-v']), ('json', ['-j']), ('lwarn', ['-n', '-l', 'warn']), ('lfail', ['-n', '-l', 'fail'])]
 BROKEN = ['refused', 'silent', 'close-after-banner', 'garbage-banner', 'truncated-kexinit', 'wrong-first-packet', 'bad-block-size', 'close-before-banner', 'stall-after-banner',
           'payload-cut-in-namelists', 'namelist-overruns-payload', 'payload-only-cookie']
+
+
+BANNER_VARIANTS = ['SSH-2.0-Open\x01SSH_9.0', 'SSH-1.99-OpenSSH_3.9p1', 'SSH-2.0-OpenSSH_9.0 caf\xe9', 'SSH-1.99-Cisco-1.25']
 
 
 def cases(tier, seed):
@@ -50,6 +53,10 @@ def cases(tier, seed):
     for b in BROKEN:
         for rep_ in range(1 if tier == 'quick' else 3):
             cs.append({'kind': 'broken', 'how': b, 'seed': rng.randrange(1 << 30)})
+    # the same breaks after a banner that by itself earns a warning / failure line: the audit is still incomplete
+    for b in ('close-after-banner', 'stall-after-banner', 'truncated-kexinit', 'wrong-first-packet', 'bad-block-size', 'payload-cut-in-namelists', 'payload-only-cookie'):
+        for bn in (BANNER_VARIANTS if tier == 'thorough' or b in ('close-after-banner', 'wrong-first-packet') else [BANNER_VARIANTS[BROKEN.index(b) % len(BANNER_VARIANTS)]]):
+            cs.append({'kind': 'broken', 'how': b, 'seed': rng.randrange(1 << 30), 'banner': bn})
     for i in range(16 if tier == 'quick' else 240):
         cs.append({'kind': 'policy', 'seed': rng.randrange(1 << 30), 'drift': i % 2 == 1, 'json': i % 4 >= 2})
     from ssh_audit.builtin_policies import BUILTIN_POLICIES
@@ -244,13 +251,17 @@ def run_broken(c):
             r = runner.run_cli(['--skip-rate-test', '-t', '1'] + args + [p.target()], timeout=40)
             p.stop(0.1)
         else:
-            r, p = audit.audit_server(broken_script(c['how'], rng), ['-t', '1'] + args, timeout=40)
+            script = broken_script(c['how'], rng)
+            if c.get('banner'):
+                script['banner'] = c['banner']
+                counters['broken_after_rated_banner'] = counters.get('broken_after_rated_banner', 0) + 1
+            r, p = audit.audit_server(script, ['-t', '1'] + args, timeout=40)
         if r.timed_out:
             return None, {'why': 'watchdog fired on broken handshake %s' % c['how']}
         counters['broken_handshakes'] += 1
         counters['status_checks'] = counters.get('status_checks', 0) + 1
         if r.status in (0, 2, 3):
-            viol.append(_v('C02/incomplete-audit-looks-complete:%s:%s' % (c['how'], name), 'an audit that obtained no algorithm lists exited with a findings status', status=r.status, out=r.out[-400:]))
+            viol.append(_v('C02/incomplete-audit-looks-complete:%s%s:%s' % (c['how'], ':rated-banner' if c.get('banner') else '', name), 'an audit that obtained no algorithm lists exited with a findings status', status=r.status, out=r.out[-400:]))
         if name == 'json':
             head = r.out.strip().split('\n')[0] if r.out.strip() else ''
             try:
